@@ -442,10 +442,22 @@ func seqOfMake(ms *ssa.MakeSlice) ([]SeqElem, bool) {
 						d := desc(st.Val)
 						coll := loopCollection(d)
 						if coll == "" {
+							// the stored value does not mention the collection (a literal built per iteration): the loop says
+							// what is walked
+							if l := innermostLoopOf(st.Block()); l != nil {
+								coll = loopCollectionDesc(l)
+							}
+						}
+						if coll == "" {
 							return nil, false
 						}
 						lo := idx.clone()
 						delete(lo.S, "#i")
+						if d == coll+"[#i]" {
+							// dst[i+k] = X[i] for every i: the elements of X as they are (what copy(dst[k:], X) does)
+							ws = append(ws, write{lo, lo.add(affSym("len(" + coll + ")")), SeqElem{Kind: "spread", D: coll}})
+							continue
+						}
 						ws = append(ws, write{lo, lo.add(affSym("len(" + coll + ")")), SeqElem{Kind: "star", Sub: []SeqElem{{Kind: "elem", D: d, V: st.Val}}}})
 						continue
 					}
